@@ -153,6 +153,7 @@ def run(chk: Check) -> None:
     run_preallocated_fill_bound(chk, ix)
     run_refcount_edge_sets(chk, ix)
     run_hooks_outside_init(chk, ix)
+    run_spill_owns_what_it_stores(chk, ix)
     base = ix.cls(OP)
     ops = [c for c in base.all_subclasses() if c.module.name == "mypyc.ir.ops" and "sources" in c.methods and not any(isinstance(n, ast.Raise) for n in c.methods["sources"].node.body)]
     if len(ops) < 35:
@@ -1157,3 +1158,58 @@ def run_hooks_outside_init(chk: Check, ix) -> None:
                 r22.ok(key2, an.loc(giveup))
             else:
                 r22.violation(key2, an.loc(giveup), f"only the class itself is asked for {d}: an instance of a subclass that defines {d} runs it over the attributes this class declared always defined (the subclass inherits them through the MRO walk) when this class's __init__ raised")
+
+
+def run_spill_owns_what_it_stores(chk: Check, ix) -> None:
+    """R06.23: the spill pass gives the environment a reference of its own for every value it stores."""
+    from ..cfg import branch_conditions
+    r23 = chk.rule("R06.23", "transform/spill.py runs after reference counts have been inserted (R05.3) and stores values that are live across a yield with SetAttr, whose stolen() is [src]: the environment releases what it holds when the slot is overwritten, nulled or deallocated. Every SetAttr the pass constructs therefore stores either a value the pass created itself (a LoadErrorValue) or a value for which, when it `is_borrowed`, an IncRef is appended under that test before the store", floor=2)
+    sp = ix.module("mypyc.transform.spill")
+    ops = ix.module("mypyc.ir.ops")
+    sa = ops.classes.get("SetAttr")
+    if sa is None or "stolen" not in sa.methods or not any(isinstance(r, ast.Return) and isinstance(r.value, ast.List) and r.value.elts and norm(r.value.elts[0]) == "self.src" for r in ast.walk(sa.methods["stolen"].node)):
+        raise AnalysisError("ops.SetAttr.stolen() no longer returns [self.src]: R06.23 needs re-reading")
+    init = sa.methods["__init__"].node
+    params = [a.arg for a in init.args.args][1:]
+    if "src" not in params:
+        raise AnalysisError("ops.SetAttr.__init__ has no `src` parameter")
+    pos = params.index("src")
+    n = 0
+    for f in sp.functions.values():
+        par = f.module.parents()
+        fresh = {a.targets[0].id for a in ast.walk(f.node) if isinstance(a, ast.Assign) and len(a.targets) == 1 and isinstance(a.targets[0], ast.Name) and isinstance(a.value, ast.Call) and call_name(a.value) == "LoadErrorValue"}
+        for c in ast.walk(f.node):
+            if not (isinstance(c, ast.Call) and call_name(c) == "SetAttr"):
+                continue
+            src = next((k.value for k in c.keywords if k.arg == "src"), c.args[pos] if len(c.args) > pos else None)
+            if src is None:
+                raise AnalysisError(f"{f.name}: SetAttr(...) without a src argument at line {c.lineno}")
+            n += 1
+            key = f"{f.name}: SetAttr(..., {norm(src)}, ...) stores a value the environment may release"
+            if isinstance(src, ast.Name) and src.id in fresh:
+                r23.ok(key, f.loc(c))
+                continue
+            st = c
+            while not isinstance(st, ast.stmt):
+                st = par[st]
+            # an IncRef(src) appended earlier in the same block, under a test of src.is_borrowed
+            block = par[st]
+            body = next((getattr(block, fld) for fld in ("body", "orelse", "finalbody") if st in getattr(block, fld, [])), [])
+            ok = False
+            for prev in body[: body.index(st)]:
+                for i in ast.walk(prev):
+                    if isinstance(i, ast.Call) and call_name(i) == "IncRef" and i.args and norm(i.args[0]) == norm(src):
+                        ist = i
+                        while not isinstance(ist, ast.stmt):
+                            ist = par[ist]
+                        conds, _ = branch_conditions(par, f.node, ist)
+                        here, _ = branch_conditions(par, f.node, st)
+                        extra = [t for t in conds if norm(t) not in {norm(h) for h in here}]
+                        if extra and all(f"{norm(src)}.is_borrowed" in norm(t) or f"{norm(src)}.type.is_refcounted" in norm(t) for t in extra) and any(f"{norm(src)}.is_borrowed" in norm(t) for t in extra):
+                            ok = True
+            if ok:
+                r23.ok(key, f.loc(c))
+            else:
+                r23.violation(key, f.loc(c), f"`{norm(c)[:80]}` stores `{norm(src)}` without giving the environment a reference when the value is borrowed (no `IncRef({norm(src)})` under `{norm(src)}.is_borrowed` before it in the block): a borrowed value live across an await (a bytes literal argument evaluated before `await`) is released by the environment once per run although nobody took a reference for it")
+    if n < 2:
+        raise AnalysisError(f"spill.py: {n} SetAttr constructions found (expected the nulling store and the spill store)")
